@@ -383,6 +383,21 @@ class Sim:
                 pass
         return out
 
+    def _scribble(self, loc):
+        """A callback that declared ``event_data`` takes the keyword dictionary the event exposes
+        (``event_data.extended_kwargs``) and changes ITS copy: drops the reserved ``event`` entry before
+        forwarding the rest somewhere, adds an annotation.  What the other callbacks of the event receive
+        is none of its business."""
+        ed = (loc or {}).get("event_data")
+        if ed is None:
+            return
+        d = ed.extended_kwargs
+        d.pop("event", None)
+        for k in [k_ for k_ in d if k_ in ("x", "y", "z", "tok")][:1]:
+            d.pop(k)
+        d["sim_scribbled"] = True
+        self.stats["scribbles"] = self.stats.get("scribbles", 0) + 1
+
     def _attach_blank(self, sm):
         """A callback attaches one more listener (an object without any callback) to its own machine
         while the event is being processed."""
@@ -406,6 +421,8 @@ class Sim:
                     self._attach_blank(self._machine(tag, obj, loc))
                 if rule.get("snapshot") and self.on_snapshot is not None:
                     self.on_snapshot(tag, rule["snapshot"])
+                if rule.get("scribble"):
+                    self._scribble(loc)
                 if rule.get("write") is not None:
                     self._write_model(tag, rule["write"])
                 sends = rule.get("sends")
@@ -510,6 +527,8 @@ class Sim:
                     self._attach_blank(self._machine(tag, obj, loc))
                 if rule.get("snapshot") and self.on_snapshot is not None:
                     self.on_snapshot(tag, rule["snapshot"])
+                if rule.get("scribble"):
+                    self._scribble(loc)
                 pre = rule.get("pre")
                 if pre is not None:
                     self.stats["delays"] += 1
